@@ -1,35 +1,38 @@
 import GodiProofs.Conc.Clauses
-/-! Behaviours of the CURRENT code that M6 exhibits and that are (minor) violations of neighbouring
-properties — each found in the model first and then reproduced on the implementation
-(`harness/conc/findings/vk_findings_test.go`, `FINDINGS.md`). They do not contradict any theorem of
-`Clauses.lean` / `Props/C09.lean`; they show what those theorems do NOT promise. -/
+/-! Regression schedules of the findings F2 and F3 (FINDINGS.md). On the protocol as it was at d23542b
+these exact schedules ended with a closed child registered in the provider's table (F2) and with
+`ErrSingletonNotInitialized` (F3) — both were kernel-checked theorems of this file then. On the
+repaired protocol (64d7b34, 0cb30f3) the same schedules end well, and the general statements are
+`C14_no_stale_child_in_provider_table` / `C13_singleton_overlap_reports_disposed` in `Clauses.lean`. -/
 namespace Godi.Conc.Findings
 open Godi.Conc
 
 def thr (p : Pc) (c : Cfg := {}) : Thr := { cfg := c, start := p, pc := p }
 
-/-- F2 (C14, C13): `scope.CreateScope` returns — as a success — a child that is already closed, and
-the closed child stays in the provider's scope table. Schedule: the creator registers the child in
-`S.children` (`sAdd`), `S.Close` runs from CAS to signal (closing the child, whose own
-`delete(p.scopes, child)` finds nothing), then the creator registers the child in `p.scopes`. -/
-theorem F2_closed_child_stays_registered :
+/-- F2 regression: the creator registers the child in `S.children` (`sAdd`), `S.Close` runs from CAS
+to signal (closing the child, whose own `delete(p.scopes, child)` finds nothing), then the creator
+registers the child in `p.scopes` — and now sees that it is disposed, removes it again and reports
+`ErrScopeDisposed`: the table is empty. -/
+theorem F2_regression :
     (run (init [thr .sChk, thr (.cCas (.ret .okUnit))])
-        ([0,0,0] ++ [1,1,1,1,1,1,1,1,1,1,1,1,1,1,1] ++ [0,0])).map
+        ([0,0,0] ++ [1,1,1,1,1,1,1,1,1,1,1,1,1,1,1] ++ [0,0,0])).map
       (fun s => (s.thr.map (·.pc), s.sh.scopes, s.sh.kidClosed, s.sh.closedSig)) =
-    some ([.done (.okChild 1), .done .okUnit, .wKid 1], some [1], [1], true) := by decide
+    some ([.done .disposed, .done .okUnit], some [], [1], true) := by decide
 
-/-- F3 (C13): a singleton resolution that overlaps `provider.Close` returns
-`ErrSingletonNotInitialized` — neither a result nor the disposed error. Schedule: the resolver passes
-the disposed check (`gChk`), `provider.Close` runs completely (closing `S`, clearing the
-`sync.Map`), then the lock-free read misses. -/
-theorem F3_singleton_not_initialized_during_close :
+/-- F3 regression: the resolver passes the disposed check (`gChk`), `provider.Close` runs completely
+(closing `S`, clearing the `sync.Map`), the lock-free read misses — and the resolver now re-reads
+the scope's flag and reports `ErrScopeDisposed`. -/
+theorem F3_regression :
     (run (init [thr .gChk, thr .pCas])
-        ([0] ++ [1,1,1, 1,1,1,1,1,1,1,1,1,1, 1,1] ++ [0])).map
+        ([0] ++ [1,1,1, 1,1,1,1,1,1,1,1,1,1, 1,1] ++ [0,0])).map
       (fun s => (s.thr.map (·.pc), s.sh.singletons)) =
-    some ([.done .notInit, .done .okUnit], false) := by decide
+    some ([.done .disposed, .done .okUnit], false) := by decide
 
-/-- the result is nevertheless inside the documented set `Res.okFor` (the sentinel exists), which is
-why `C13_overlap` / `C09_results_valid` hold: the theorems list `notInit` for singleton reads. -/
-example : Res.okFor .gChk .notInit = true := rfl
+/-- and when only the provider's flag is set at that moment (the scope is not in the provider's
+table any more … here: the scope table was emptied by another route), the provider-disposed error:
+the branch exists in the model (`gMiss2`) and its `notInit` arm is unreachable
+(`C13_singleton_overlap_reports_disposed`). -/
+example (c : Cfg) (s : Sh) (h : s.pdisposed = true) :
+    act c s .gMiss2 = some (.done .provDisposed, s, []) := by simp [act, h]
 
 end Godi.Conc.Findings
